@@ -76,8 +76,10 @@ def reparam_image_lower_bound(prog, bij_term):
             return None
         seq = list(b[1])
     for b in seq:
-        if b[0] == "call" and b[1] == ("ext", W + "non_trainable"):
+        frozen = False
+        if b[0] == "call" and b[1] in (("ext", W + "non_trainable"), ("ext", W + "NonTrainable")):
             b = dict(b[3]).get("tree") or (b[2][0] if b[2] else b)
+            frozen = True
         if b[0] != "call" or b[1][0] != "ext":
             return None
         r = prog.lookup(b[1][1])
@@ -88,7 +90,19 @@ def reparam_image_lower_bound(prog, bij_term):
         # bind constructor arguments into the class's fields (Loc(loc=c) -> self.loc = c)
         fields = Interp(prog).eval_init(cls, list(b[2]), dict(b[3]))
         from .c05 import simplify_values
-        t = subst(t, lambda s: simplify_values(prog, fields[s[2]]) if s[0] == "attr" and s[1] == SELF and s[2] in fields else None)
+        from ..taint import ann_is_static
+
+        def bind(s, fields=fields, cls=cls, frozen=frozen):
+            if s[0] == "attr" and s[1] == SELF and s[2] in fields:
+                fi = prog.find_field(cls, s[2])
+                is_array = fi is not None and ann_is_static(fi[1].ann_src) is False
+                if is_array and not frozen:
+                    # an un-frozen array field of the reparameterising bijection is itself a trainable
+                    # (or conditioner-parameterised) quantity: it ranges over the reals, it is no constant
+                    return mk_mul((("sym", "FREE_" + s[2].upper()), R))
+                return simplify_values(prog, fields[s[2]])
+            return None
+        t = subst(t, bind)
         cur = t
     return lower_bound(cur, R)
 
@@ -100,6 +114,8 @@ def run(prog: Program, rep: Report, tier: str):
     rule_knots(prog, rep)
     rule_reparam(prog, rep)
     rule_guard(prog, rep)
+    from .lints import rule_stable_bijections
+    rule_stable_bijections(prog, rep, "C11.stable")
     if tier == "thorough":
         from ..audit import audit_generic
         audit_generic(prog, rep, "C11")
@@ -173,6 +189,10 @@ def rule_range(prog, rep):
         lb = reparam_image_lower_bound(prog, dict(rp[0][3]).get("bijection"))
         ok = ok_where and lb is not None and lb[1] and same(lb[0], MS) and same(kw.get("replace"), rp[0])
         detail = f"replace={show(kw.get('replace'), 120)}, image lower bound {show(lb[0]) if lb else None}"
+        if lb is None:
+            detail += (" - no lower bound can be derived: a member of the reparameterising Chain that supplies the floor "
+                       "has an un-frozen array field (not wrapped in non_trainable), so the floor itself is a trainable / "
+                       "conditioner-parameterised quantity and the scale can reach zero or negative values")
     rep.check(ok, "C11.range", site, "_affine_with_min_scale:scale>min_scale",
               "scale = softplus(raw) + min_scale > min_scale", detail)
     # spline derivatives
